@@ -357,6 +357,11 @@ def tensor_cases(draw, tier):
              "cod": [[2, 0]] * nc, "dag": False, "svals": svals}
         layers.append([b, off])
         scan = scan[:off] + [[2, 0]] * nc + scan[off + nd:]
+        if draw(st.integers(0, 2)) == 0 and len(scan) - nc + nd <= 3:
+            # the same box again, daggered, right below (f >> f.dagger())
+            layers.append([dict(b, dom=b["cod"], cod=b["dom"], dag=True),
+                           off])
+            scan = scan[:off] + [[2, 0]] * nd + scan[off + nc:]
     spec = {"cls": "tensor", "dom": dom, "layers": layers}
     return {"d": spec, "plan": draw(subs_plans(spec_symbols(spec) or {"x"}))}
 
@@ -380,8 +385,12 @@ def build_symbolic_tensor(spec):
         if len(data) >= 4:  # nested lists: substitution must recurse
             half = len(data) // 2
             data = [data[:half], data[half:]]
-        boxes.append(tensor.Box(b["name"], Dim(*[2] * len(b["dom"])),
-                                Dim(*[2] * len(b["cod"])), data))
+        if b.get("dag"):
+            boxes.append(tensor.Box(b["name"], Dim(*[2] * len(b["cod"])),
+                                    Dim(*[2] * len(b["dom"])), data).dagger())
+        else:
+            boxes.append(tensor.Box(b["name"], Dim(*[2] * len(b["dom"])),
+                                    Dim(*[2] * len(b["cod"])), data))
         offsets.append(off)
     cod = specs.spec_cod(spec)
     return tensor.Diagram(Dim(*[2] * len(spec["dom"])),
